@@ -108,6 +108,25 @@ fn exact_step(margin: &dyn Fn(&[f64]) -> f64, v: &[f64], d: &[f64], amax: f64) -
     lo
 }
 
+/// The judged answer comes from a fresh cone object; the same question is then asked again after the object
+/// has answered a different one (reversed, longer directions). The object's scratch state must not leak:
+/// both answers must be identical (a differential oracle that needs no expected value).
+fn fresh_then_used<C: Cone<f64>>(c: &mut C, dz: &[f64], ds: &[f64], z: &[f64], s: &[f64], st: &DefaultSettings<f64>, amax: f64) -> Result<(f64, f64), Violation> {
+    let first = c.step_length(dz, ds, z, s, st, amax);
+    let odz: Vec<f64> = dz.iter().map(|v| -3.0 * v).collect();
+    let ods: Vec<f64> = ds.iter().rev().map(|v| -0.5 * v).collect();
+    let _ = c.step_length(&odz, &ods, z, s, st, 1.0);
+    let second = c.step_length(dz, ds, z, s, st, amax);
+    ensure!(
+        first.0.to_bits() == second.0.to_bits() && first.1.to_bits() == second.1.to_bits(),
+        "step-length-depends-on-earlier-calls",
+        "fresh object: {:?}; same object after another call: {:?}",
+        first,
+        second
+    );
+    Ok(first)
+}
+
 pub struct SymSteps {
     pub kind: Kind,
 }
@@ -175,15 +194,15 @@ impl Space for SymSteps {
         let st = DefaultSettings::<f64>::default();
         let cs = spec(&self.kind);
         let (az, as_) = match &self.kind {
-            Kind::NN(d) => NonnegativeCone::<f64>::new(*d).step_length(&dz, &ds, &z, &s, &st, amax),
-            Kind::SOC(d) => SecondOrderCone::<f64>::new(*d).step_length(&dz, &ds, &z, &s, &st, amax),
+            Kind::NN(d) => fresh_then_used(&mut NonnegativeCone::<f64>::new(*d), &dz, &ds, &z, &s, &st, amax)?,
+            Kind::SOC(d) => fresh_then_used(&mut SecondOrderCone::<f64>::new(*d), &dz, &ds, &z, &s, &st, amax)?,
             Kind::PSD(k) => {
                 let mut c = PSDTriangleCone::<f64>::new(*k);
                 ensure!(c.update_scaling(&s, &z, 1.0, ScalingStrategy::PrimalDual), "update_scaling-fails-on-interior-point", "");
-                c.step_length(&dz, &ds, &z, &s, &st, amax)
+                fresh_then_used(&mut c, &dz, &ds, &z, &s, &st, amax)?
             }
         };
-        ctx.transitions += 1;
+        ctx.transitions += 3;
         for (name, a, v, d, dual) in [("z", az, &z, &dz, true), ("s", as_, &s, &ds, false)] {
             ensure!(a.is_finite() && a >= 0.0, "step-negative-or-nonfinite", "{}: alpha = {:e}", name, a);
             ensure!(a <= amax, "step-exceeds-alpha-max", "{}: alpha {:e} > alpha_max {:e}", name, a, amax);
@@ -317,11 +336,11 @@ impl Space for NonsymSteps {
         st.linesearch_backtrack_step = step;
         st.min_terminate_step_length = amin;
         let (az, as_) = match &self.kind {
-            NKind::Exp => ExponentialCone::<f64>::new().step_length(&dz, &ds, &z, &s, &st, amax),
-            NKind::Pow(a) => PowerCone::<f64>::new(*a).step_length(&dz, &ds, &z, &s, &st, amax),
-            NKind::GenPow(a, d) => GenPowerCone::<f64>::new(a.clone(), *d).step_length(&dz, &ds, &z, &s, &st, amax),
+            NKind::Exp => fresh_then_used(&mut ExponentialCone::<f64>::new(), &dz, &ds, &z, &s, &st, amax)?,
+            NKind::Pow(a) => fresh_then_used(&mut PowerCone::<f64>::new(*a), &dz, &ds, &z, &s, &st, amax)?,
+            NKind::GenPow(a, d) => fresh_then_used(&mut GenPowerCone::<f64>::new(a.clone(), *d), &dz, &ds, &z, &s, &st, amax)?,
         };
-        ctx.transitions += 1;
+        ctx.transitions += 3;
         for (name, a, v, d, dual) in [("z", az, &z, &dz, true), ("s", as_, &s, &ds, false)] {
             ensure!(a.is_finite() && a >= 0.0, "step-negative-or-nonfinite", "{}: alpha = {:e}", name, a);
             ensure!(a <= amax, "step-exceeds-alpha-max", "{}: alpha {:e} > {:e}", name, a, amax);
